@@ -59,7 +59,9 @@ pub fn gen_admin(r: &mut Rng, g: &RawGen, rule_counter: &mut u32, allow_unwind: 
             *rule_counter += 1;
             let id = *rule_counter;
             let kw = *r.pick(&["zork", "blip", "quux", "frob"]);
-            let (patterns, result) = match r.below(5) {
+            let (patterns, result) = match r.below(6) {
+                // no keyword: two numbers side by side; occurrences overlap ("1 2 3" has two, one token apart)
+                5 => (vec!["{NUMBER:a} {NUMBER:b}".to_string()], ResultSpec::NumberTimes { field: if r.chance(1, 2) { "a".into() } else { "b".into() }, k: (2 + r.below(5)) as f64 }),
                 0 => (vec![format!("{} {{NUMBER:n}}", kw), format!("{{NUMBER:n}} {}", kw)], ResultSpec::NumberTimes { field: "n".into(), k: (2 + r.below(5)) as f64 }),
                 1 => (vec![format!("{} {{TEXT:w}}", kw)], ResultSpec::Number((1000 + r.below(1000)) as f64)),
                 2 => (vec![format!("{{MONEY:m}} {}", kw)], ResultSpec::Echo { field: "m".into() }),
@@ -77,7 +79,10 @@ pub fn gen_admin(r: &mut Rng, g: &RawGen, rule_counter: &mut u32, allow_unwind: 
             let fam = format!("fam{}", r.below(3));
             let idx = 1 + r.below(4) as usize;
             let unit = format!("{}u{}", fam, idx);
-            AdminOp::AddTypeItem(TypeItemSpec { family: fam, index: idx, format: format!("{{value}} {}", unit), parse: vec![format!("{{NUMBER:value}} {{TEXT:type:{}}}", unit)], upgrade: "{value} / 2".into(), downgrade: "{value} * 2".into(), names: vec![unit] })
+            // now and then the item also answers to the name of a built-in unit
+            let mut names = vec![unit.clone()];
+            if r.chance(1, 3) { names.push(r.pick(&["mile", "meter", "gram", "inch"]).to_string()); }
+            AdminOp::AddTypeItem(TypeItemSpec { family: fam, index: idx, format: format!("{{value}} {}", unit), parse: vec![format!("{{NUMBER:value}} {{TEXT:type:{}}}", unit)], upgrade: "{value} / 2".into(), downgrade: "{value} * 2".into(), names })
         }
     }
 }
@@ -93,7 +98,7 @@ fn alias_line(r: &mut Rng, g: &RawGen, dec: &str) -> String {
 
 pub fn rule_line(r: &mut Rng, g: &RawGen, dec: &str) -> String {
     let kw = *r.pick(&["zork", "blip", "quux", "frob"]);
-    match r.below(5) { 0 => format!("{} {}", kw, g.number(r, dec)), 1 => format!("{} {}", g.number(r, dec), kw), 2 => format!("{} {}", kw, r.pick(NAME_WORDS)), 3 => format!("{} {}", g.money(r, dec), kw), _ => format!("{} {}% {}", kw, r.below(100), kw) }
+    match r.below(6) { 5 => format!("{} {} {}{}", r.below(30), r.below(30), r.below(30), if r.chance(1, 2) { format!(" {}", r.below(30)) } else { String::new() }), 0 => format!("{} {}", kw, g.number(r, dec)), 1 => format!("{} {}", g.number(r, dec), kw), 2 => format!("{} {}", kw, r.pick(NAME_WORDS)), 3 => format!("{} {}", g.money(r, dec), kw), _ => format!("{} {}% {}", kw, r.below(100), kw) }
 }
 
 fn gen_line(r: &mut Rng, g: &RawGen, lang: &str, dec: &str, rule_heavy: bool, sentinels: &[String]) -> String {
@@ -109,7 +114,10 @@ fn gen_line(r: &mut Rng, g: &RawGen, lang: &str, dec: &str, rule_heavy: bool, se
         4 => name(r),
         5 => format!("{} = {} {} {}", name(r), name(r), r.pick(&["+", "*", "-"]), g.number(r, dec)),
         6 => rule_line(r, g, dec),
-        7 => { let f = r.below(3); format!("{} fam{}u{} to fam{}u{}", r.below(64), f, 1 + r.below(4), f, 1 + r.below(4)) }
+        7 => { let f = r.below(3); match r.below(4) {
+            0 => format!("{} fam{}u{} to {}", r.below(64), f, 1 + r.below(4), r.pick(&["mile", "meter", "gram", "inch"])),
+            1 => format!("{} {} to {}", 1 + r.below(64), r.pick(&["km", "furlong", "kg", "cm", "yard"]), r.pick(&["mile", "meter", "gram", "inch"])),
+            _ => format!("{} fam{}u{} to fam{}u{}", r.below(64), f, 1 + r.below(4), f, 1 + r.below(4)) } }
         8 => g.failing_line(r),
         9 => String::new(),
         10 | 11 => alias_line(r, g, dec),
